@@ -30,6 +30,7 @@ func init() {
 		ID:    "C14",
 		Level: "exploration",
 		Rule: "store level: a case is one mutation of a real badgerstore QueryStore (2 indexes; creates, key-changing/key-keeping updates, nil keys, deletes): the OnQueryChange log is compared with the mutation log using independently computed keys (exactly one callback iff some index key changed, in mutation order per id), inside the callback the index must already show the new key and not the old one, and for every query of a battery QueryChange.Events(q) is compared with reference before/after results (result changed => reported affected; neither old nor new key matches => unaffected); " +
+			"events level: store.QueryHandler (collection and model typed, ordinary and query resources, id-to-reference transformers) over the shipped mockstore.QueryStore whose QueryChange.Events describes each change of a result as add/remove events or asks for a reset: the gateway model applies the published events / query responses and must hold what a fresh get returns, which must be the transformed reference result; " +
 			"service level: store.QueryHandler over the same QueryStore (ordinary and query resources, with/without path params and AffectedResources) serving a gateway model that holds results, answers query events with query requests, applies events / replaces results and compares with a fresh get after every Flush. distinct non-trivial = distinct (history, mutation) pairs that changed an index key, plus distinct (history, query) pairs whose result changed",
 		Assumptions: []string{
 			"between 'result changed' and 'neither key matches' the reset flag may be either (the statement leaves it open)",
@@ -52,10 +53,18 @@ func init() {
 				bs = append(bs, core.Batch{Name: fmt.Sprintf("service-%d", s), TimeoutS: 600,
 					Params: core.Params(idxParams{Kind: "service", Typed: s%2 == 0, Prefix: []string{"", "sv"}[s/2%2], Histories: tierPick(tier, 15, 120), Shard: s})})
 			}
+			for s := 0; s < tierPick(tier, 2, 8); s++ {
+				bs = append(bs, core.Batch{Name: fmt.Sprintf("events-store-%d", s), TimeoutS: 600,
+					Params: core.Params(idxParams{Kind: "events", Histories: tierPick(tier, 10, 80), Shard: s})})
+			}
 			return bs
 		},
 		MinEvaluations: func(t core.Tier) int64 { return 2000 },
 		Run: func(c *core.Ctx, b core.Batch) {
+			if strings.HasPrefix(b.Name, "events-store-") {
+				c14EventsRun(c, b)
+				return
+			}
 			if strings.HasPrefix(b.Name, "service-") {
 				c14ServiceRun(c, b)
 				return
